@@ -2,7 +2,7 @@
 import re
 from ..ir import callee, short, walk, ctor_name, pat_variants, guards, AnchorMissing
 from ..trace import Tracer, ok_exits, err_exits, base
-from ..prov import Bindings
+from ..prov import Bindings, calls_via_helpers
 from ..tables import NoMatch
 from .common import *
 from .corefx import core_paths, mutation_effective
@@ -35,15 +35,15 @@ def rule_a(prog, rep):
             if tb.count(ev) != 1 or ('notify' in tb and tb.index('notify') < tb.index(ev)):
                 bad = t
         n += 1
-        pc = crate.calls(f, lambda c: c.endswith('PersistentStorageImpl::update_value') or c.endswith('PersistentStorageImpl::delete_value'))
-        key_ok = len(pc) == 1 and b.origins(pc[0][0]['args'][1]) == {'param(key)'}
+        pc = calls_via_helpers(crate, f, lambda c: c.endswith('PersistentStorageImpl::update_value') or c.endswith('PersistentStorageImpl::delete_value'))
+        key_ok = len(pc) == 1 and pc[0][3](pc[0][0]['args'][1]) == {'param(key)'}
         if bad is not None or cnt == 0:
             rep.violation('C18.a', f'Worterbuch::{fname}', f.loc, f'Ok path on which the change is not queued exactly once before '
                           f'notification: {list(bad) if bad else "no effective mutation path"}', key=f'C18.a/{fname}/queue')
         elif not key_ok:
             rep.violation('C18.a', f'Worterbuch::{fname}', f.loc, 'the persisted key is not the request key', key=f'C18.a/{fname}/key')
         else:
-            rep.ok('C18.a', f'Worterbuch::{fname}', loc(f, pc[0][0]), f'{cnt} Ok paths queue the change once, for the request key, before notifying')
+            rep.ok('C18.a', f'Worterbuch::{fname}', loc(pc[0][2], pc[0][0]), f'{cnt} Ok paths queue the change once, for the request key, before notifying')
     for fname, mut, ev in (('internal_pdelete', 'delete_matches', 'persist:delete'), ('import', 'merge', 'persist:update')):
         f = crate.fn(f'{CORE}::{fname}')
         b = Bindings(crate, f)
